@@ -266,6 +266,33 @@ impl OWs {
 impl Obj for OWs {
     fn add(&mut self, id: u8) {
         self.ids.push(id);
+        // every other time the caller does not rebuild its list but takes the collection back out of the
+        // witness set, adds to that and hands it over again
+        if self.ids.len() % 2 == 0 {
+            match self.kind {
+                CollKind::WsNativeScripts => {
+                    if let Some(mut l) = self.ws.native_scripts() {
+                        l.add(&e_native(id));
+                        self.ws.set_native_scripts(&l);
+                        return;
+                    }
+                }
+                CollKind::WsPlutusScripts => {
+                    if let Some(mut l) = self.ws.plutus_scripts() {
+                        l.add(&e_plutus(id));
+                        self.ws.set_plutus_scripts(&l);
+                        return;
+                    }
+                }
+                _ => {
+                    if let Some(mut l) = self.ws.plutus_data() {
+                        l.add(&e_datum(id));
+                        self.ws.set_plutus_data(&l);
+                        return;
+                    }
+                }
+            }
+        }
         self.sync();
     }
     fn bytes(&self) -> Vec<u8> {
